@@ -217,7 +217,14 @@ func (its *TransactionDatatype) DoTransaction(
 			// do nothing
 		}
 	}()
-	if err := funcWithCloneDatatype(txCtx); err != nil {
+	bodyCtx := txCtx
+	if bodyCtx == nil {
+		// the call joined the transaction its caller is in (a call made inside a transaction
+		// body, e.g. a multi-step Patch): the body works under that transaction's context.
+		// Without one its first operation would wait for the lock its own goroutine holds.
+		bodyCtx = currentTxCtx
+	}
+	if err := funcWithCloneDatatype(bodyCtx); err != nil {
 		its.SetTransactionFail()
 		return errors.DatatypeTransaction.New(its.L(), err.Error())
 	}
